@@ -3,7 +3,12 @@ package common
 import (
 	"errors"
 	"fmt"
+	"os"
+	"runtime"
 	"runtime/debug"
+	"runtime/metrics"
+	"sync"
+	"sync/atomic"
 	"time"
 
 	"github.com/itchyny/gojq"
@@ -34,8 +39,49 @@ func (c *CountCtx) Done() <-chan struct{} {
 	if c.Limit >= 0 && k >= c.Limit {
 		return c.closed
 	}
+	if memOver.Load() {
+		c.Limit = 0 // memory watchdog: treat as an exhausted budget (outcome not comparable)
+		return c.closed
+	}
 	return c.open
 }
+
+// memory watchdog: a program such as `reduce range(40) as $i ("x"; . + .)` doubles
+// a value in a handful of VM steps, so the step budget does not bound memory. A
+// sampler sets memOver when the live heap passes memLimit; the next poll then
+// stops the run with the budget outcome (which no stream or oracle compares).
+var (
+	memOver  atomic.Bool
+	memOnce  sync.Once
+	memLimit uint64 = 3 << 30
+)
+
+func startMemWatch() {
+	memOnce.Do(func() {
+		go func() {
+			sample := []metrics.Sample{{Name: "/memory/classes/heap/objects:bytes"}}
+			for {
+				time.Sleep(20 * time.Millisecond)
+				metrics.Read(sample)
+				memOver.Store(sample[0].Value.Uint64() > memLimit)
+			}
+		}()
+	})
+}
+
+// afterRun releases a blown-up heap before the next program starts.
+func afterRun() {
+	if memOver.Load() {
+		fmt.Fprintln(os.Stderr, "verif: memory watchdog stopped a run")
+		runtime.GC()
+		debug.FreeOSMemory()
+		sample := []metrics.Sample{{Name: "/memory/classes/heap/objects:bytes"}}
+		metrics.Read(sample)
+		memOver.Store(sample[0].Value.Uint64() > memLimit)
+	}
+}
+
+var traceRuns = os.Getenv("VERIF_TRACE") != ""
 func (c *CountCtx) Err() error {
 	return ErrBudget
 }
@@ -55,6 +101,7 @@ type Outcome struct {
 
 // RunCode runs compiled code on v under a step budget and an output cap.
 func RunCode(code *gojq.Code, v any, budget, maxOuts int, vars ...any) (o Outcome) {
+	startMemWatch()
 	ctx := NewCountCtx(budget)
 	defer func() {
 		if r := recover(); r != nil {
@@ -62,6 +109,7 @@ func RunCode(code *gojq.Code, v any, budget, maxOuts int, vars ...any) (o Outcom
 			o.Stack = string(debug.Stack())
 		}
 		o.Polls = ctx.Polls
+		afterRun()
 	}()
 	iter := code.RunWithContext(ctx, v, vars...)
 	for {
@@ -94,6 +142,9 @@ func RunSrc(src string, v any, budget, maxOuts int, opts ...gojq.CompilerOption)
 			o.Stack = string(debug.Stack())
 		}
 	}()
+	if traceRuns {
+		fmt.Fprintf(os.Stderr, "TRACE %s <- %s\n", src, Canon(v))
+	}
 	q, err := gojq.Parse(src)
 	if err != nil {
 		o.ParseErr = err
